@@ -27,6 +27,18 @@ namespace
         friend type get(vt_rl);
     };
     template struct rob<vt_rl, &igris::vtermxx::rl>;
+    struct vt_state
+    {
+        typedef int igris::vtermxx::*type;
+        friend type get(vt_state);
+    };
+    template struct rob<vt_state, &igris::vtermxx::state>;
+    struct rl_state
+    {
+        typedef int igris::readline::*type;
+        friend type get(rl_state);
+    };
+    template struct rob<rl_state, &igris::readline::_state>;
 }
 
 namespace c15
@@ -60,6 +72,17 @@ namespace c15
             free(src);
             return 0;
         }
+        int newdata_n(const std::string &d, int n, bool &has_ret) override
+        {
+            has_ret = false;
+            char *src = (char *)malloc(d.size() ? d.size() : 1);
+            memcpy(src, d.data(), d.size());
+            s.newdata(src, (size_t)(n < 0 ? 0 : n));
+            free(src);
+            return 0;
+        }
+        bool clear() override { s.clear(); return true; }
+        bool set_size_cursor(unsigned len, unsigned cur) override { s.set_size_and_cursor(len, cur); return true; }
         int backspace(unsigned n) override { return s.backspace((int)n); }
         int del(unsigned n) override { return s.del((int)n); }
         int left() override { return s.left(); }
@@ -83,6 +106,8 @@ namespace c15
         unsigned cursor() override { return (unsigned)(rl.line().current_size() - rl.line().rightsize()); }
         std::string text() override { return std::string(rl.line().data(), rl.line().current_size()); }
         std::string tail() override { return ""; }
+        int linecpy(char *dst, size_t maxlen) override { return rl.linecpy(dst, maxlen); }
+        int state() override { return rl.*get(rl_state()); }
     };
     ireadline *make_readline_x(unsigned cap, unsigned depth) { return new readline_x(cap, depth); }
 
@@ -102,6 +127,8 @@ namespace c15
         }
         void init_step() override { v.init_step(); }
         void key(uint8_t c) override { v.newdata((int16_t)c); }
+        int state() override { return v.*get(vt_state()); }
+        int rlstate() override { return (v.*get(vt_rl())).*get(rl_state()); }
         unsigned len() override { return (unsigned)(v.*get(vt_rl())).line().current_size(); }
         unsigned cursor() override { return (unsigned)((v.*get(vt_rl())).line().current_size() - (v.*get(vt_rl())).line().rightsize()); }
         std::string text() override { return std::string((v.*get(vt_rl())).line().data(), (v.*get(vt_rl())).line().current_size()); }
